@@ -37,6 +37,18 @@ def retro_screen_kwargs(rng, flavour=None):
 HOLDOUT_FRACTIONS = [0.0, 1.0, 0.07, 0.1, 0.3, 0.5, 1.0 / 3.0, 0.7, 1e-10, 1e-12, 5e-324, 0.5 + 2e-10, 0.1 + 1e-11, 0.25 - 1e-12, 1.0 - 1e-12]
 
 
+def as_given(rng, v):
+    """an integer parameter the way callers may hand it over: Python int, numpy integer, 0-d array, length-1 array"""
+    u = rng.random()
+    if u < 0.75:
+        return int(v)
+    if u < 0.85:
+        return np.int64(v)
+    if u < 0.93:
+        return np.array(v)
+    return np.array([v])
+
+
 def make_operation(rng, R, screen, only=None):
     """Pick a shipped operation with random (possibly useless) parameters.
     Returns (kind, name, params, callable(screen, rng) -> result)."""
@@ -64,7 +76,7 @@ def make_operation(rng, R, screen, only=None):
         return "generator", name, p, g.generate_plates
     if name == "SampleSegregating":
         choices = [1, 2, 3, 5, 8, 1000] + per_sample  # includes samples with exactly the limit
-        p = dict(max_plate_size=int(rng.choice(choices)))
+        p = dict(max_plate_size=as_given(rng, int(rng.choice(choices))))
         g = R.SampleSegregatingPermutationPlateGenerator(**p)
         return "generator", name, p, g.generate_plates
     if name == "MergeMin":
